@@ -66,6 +66,11 @@ CLAIMS = {
          "Generated corpora with field lengths on the edges of the 256 norm buckets and generated scoring queries (term, phrase, boolean, nested boost, const, dismax) are scored by tantivy and by an independent BM25 over statistics computed from the model documents and a frozen norm table; explain must equal the collected score, single-clause scores are bit-identical across collectors / K and, without deletes, across a merge into one segment.",
          "relative tolerance 1e-5 per scoring clause for sums; boosted clauses compared with tolerance (different but legitimate rounding of the product in explain); explain of non-matching documents is not exercised",
          "DESIGN.md §3 C12"),
+ "C13": ("exploration",
+         "call-program generation against an advance()-only reference sequence for every scorer kind and generated nestings (proptest), exhaustive (position, target) pairs on small corpora, bytes-to-program decoder for fuzzing",
+         "For generated corpora (posting lists crossing 128, windows 1024/4096, > 4096 docs) and 77 catalogue scorer shapes plus generated nestings, with scoring on and off, generated programs over {advance, seek(doc+d), seek(TERMINATED), fill_buffer, fill_bitset_block, seek_danger chains, counts, score reads} must observe the reference [(doc, score)] sequence of a fresh scorer driven by advance(); all documented preconditions of src/docset.rs are respected by the generator.",
+         "scores of sums compared within 4 ulp per clause; the precondition set is the one documented in src/docset.rs",
+         "DESIGN.md §3 C13"),
  "C14": ("exploration",
          "direct reference evaluator over the model documents + metamorphic partition/merge/serialisation independence of aggregation results on generated corpora and request trees (proptest)",
          "Generated corpora (missing and multi-valued fields, negative and fractional values, values on bucket boundaries, up to 200 terms, deletes) and generated request trees of depth <= 3 over all 16 aggregation variants with a filtering query are evaluated (1) against a rustdoc-based direct evaluator and (2) metamorphically: one segment vs 1-6 segments vs 1-4 separate indexes whose intermediate results are merged with merge_fruits in generated orders and shapes with postcard round trips; counts and buckets exactly, float sums within 1e-9, sketches within their documented bounds; a generated bucket limit must error or return the complete result.",
